@@ -104,3 +104,15 @@ class MapSpec:
             nodes[k] = ("|P:" + "j" + e[1].encode().hex()) if e[0] == "P" else ("|C%d:" % e[2] + "j" + e[1].encode().hex())
         items = sorted((("-" if not p else xs("/".join(p))) + t) for p, t in nodes.items())
         return "dump len=%d nodes=[%s]" % (len(self.m), ";".join(items))
+
+    def load_dump(self, r):
+        """resynchronise from the result token of a `dump` line"""
+        inner = r[r.index("nodes=[") + 7:-1]
+        self.m = {}
+        for item in inner.split(";"):
+            if "|" in item:
+                p, e = item.split("|")
+                path = tuple(bytes.fromhex(p[1:]).decode().split("/"))
+                kind, tok = e.split(":")
+                text = bytes.fromhex(tok[1:]).decode()
+                self.m[path] = ("P", text) if kind == "P" else ("C", text, int(kind[1:]))
